@@ -112,6 +112,12 @@ def revolve(
 
     # use the 2D X component as radius
     radius = linestring[:, 0]
+    # points within the merge tolerance of the axis are on the axis: make
+    # them exactly so, as every copy of such a point around the revolution
+    # has to end up with identical coordinates to be merged into a single
+    # vertex wherever `transform` moves it (the pole of a sphere is
+    # generated at a radius of `sin(pi) = 1.2e-16` rather than zero)
+    radius = np.where(np.abs(radius) < tol.merge, 0.0, radius)
     # use the 2D Y component as the height along revolution
     height = linestring[:, 1]
     # a lot of tiling to get our 3D vertices
